@@ -301,7 +301,8 @@ def r6(c):
                 "this path are assembled by hand, without the inherited rules['global'] / the union of the local rules of all equal matches", key_text="return-select")
     fa = repo.func(PATCHING, "_find_acl_matches")
     gm = GuardMap(fa)
-    apps = [x for x in calls_in(fa) if isinstance(x.func, ast.Attribute) and x.func.attr == "append"]
+    apps = [x for x in calls_in(fa) if isinstance(x.func, ast.Attribute) and x.func.attr == "append"
+            and any(any(isinstance(y, ast.Call) and call_name(y) == "_rules_local_global" for y in ast.walk(l.iter)) for l in gm.in_loop(x) if isinstance(l, ast.For))]
     if len(apps) != 1:
         raise AnchorError("_find_acl_matches: collection of the candidates not found")
     loops = [l for l in gm.in_loop(apps[0]) if isinstance(l, ast.For)]
